@@ -11,6 +11,7 @@ use anyhow::anyhow;
 use anyhow::bail;
 use log::debug;
 use log::info;
+use octo_squirrel::codec::aead::CipherKind;
 use octo_squirrel::codec::vmess::aead::AEADBodyCodec;
 use octo_squirrel::protocol::vmess::VERSION;
 use octo_squirrel::protocol::vmess::address;
@@ -18,6 +19,7 @@ use octo_squirrel::protocol::vmess::aead::*;
 use octo_squirrel::protocol::vmess::header::RequestCommand;
 use octo_squirrel::protocol::vmess::header::RequestHeader;
 use octo_squirrel::protocol::vmess::header::RequestOption;
+use octo_squirrel::protocol::vmess::header::SecurityType;
 use octo_squirrel::protocol::vmess::session::ClientSession;
 use octo_squirrel::util::dice;
 use octo_squirrel::util::fnv;
@@ -129,17 +131,25 @@ impl Decoder for ClientAEADCodec {
     }
 }
 
+/// VMess offers aes-128-gcm and chacha20-poly1305; any other configured cipher is an error, not a silent fallback
+pub(super) fn security_type(kind: CipherKind) -> Result<SecurityType, anyhow::Error> {
+    match kind {
+        CipherKind::Aes128Gcm => Ok(SecurityType::Aes128Gcm),
+        CipherKind::ChaCha20Poly1305 => Ok(SecurityType::Chacha20Poly1305),
+        _ => bail!("cipher {} is not supported by vmess", kind),
+    }
+}
+
 pub(super) mod tcp {
     use octo_squirrel::codec::aead::CipherKind;
     use octo_squirrel::protocol::address::Address;
     use octo_squirrel::protocol::vmess::header::RequestCommand;
     use octo_squirrel::protocol::vmess::header::RequestHeader;
-    use octo_squirrel::protocol::vmess::header::SecurityType;
 
     use super::ClientAEADCodec;
 
     pub fn new_codec(addr: &Address, (kind, password): (CipherKind, String)) -> anyhow::Result<ClientAEADCodec> {
-        let security = if kind == CipherKind::ChaCha20Poly1305 { SecurityType::Chacha20Poly1305 } else { SecurityType::Aes128Gcm };
+        let security = super::security_type(kind)?;
         let header = RequestHeader::default(RequestCommand::TCP, security, addr.clone(), &password)?;
         Ok(ClientAEADCodec::new(header))
     }
@@ -153,12 +163,10 @@ pub(super) mod udp {
     use octo_squirrel::codec::DatagramPacket;
     use octo_squirrel::codec::QuicStream;
     use octo_squirrel::codec::WebSocketFramed;
-    use octo_squirrel::codec::aead::CipherKind;
     use octo_squirrel::config::ServerConfig;
     use octo_squirrel::protocol::address::Address;
     use octo_squirrel::protocol::vmess::header::RequestCommand;
     use octo_squirrel::protocol::vmess::header::RequestHeader;
-    use octo_squirrel::protocol::vmess::header::SecurityType;
     use tokio::net::TcpStream;
     use tokio_rustls::client::TlsStream;
     use tokio_util::bytes::BytesMut;
@@ -173,7 +181,7 @@ pub(super) mod udp {
     }
 
     pub fn new_codec(addr: &Address, config: &ServerConfig<SslConfig>) -> Result<ClientAEADCodec> {
-        let security = if config.cipher == CipherKind::ChaCha20Poly1305 { SecurityType::Chacha20Poly1305 } else { SecurityType::Aes128Gcm };
+        let security = super::security_type(config.cipher)?;
         let header = RequestHeader::default(RequestCommand::UDP, security, addr.clone(), &config.password)?;
         Ok(ClientAEADCodec::new(header))
     }
